@@ -257,13 +257,15 @@ func MatchWhole(names string, q HostPort) bool {
 // the generators' guarantee that hosts and host patterns contain none of
 // '[' and ']' and ports are digit strings:
 //   - hashed names: always (both hash the same lookup name);
-//   - query on port 22 (lookup name = bare host): every pattern must be
-//     unbracketed (a bracketed "[h]:22" can never match a bare name in OpenSSH
-//     but does match in the split model);
-//   - query on another port (lookup name "[host]:port"): every unbracketed
-//     pattern must be free of wildcards (an unbracketed "*" matches the whole
-//     bracketed name in OpenSSH but nothing in the split model), bracketed
-//     patterns are fine (the literal "]:" pins the split point).
+//   - query on port 22 (lookup name = bare host, never starting with '['):
+//     a bracketed pattern can never match the bare name in OpenSSH; in the
+//     split model it cannot either unless its port is 22, so only "[h]:22"
+//     patterns break the coincidence;
+//   - query on another port (lookup name "[host]:port"): a bracketed pattern
+//     matches the same way in both (its literal "]:" pins the split point, the
+//     name has exactly one ']'), an unbracketed pattern without wildcards
+//     matches in neither, but an unbracketed wildcard such as "*" matches the
+//     whole bracketed name in OpenSSH and nothing in the split model.
 func Coincide(names string, q HostPort) bool {
 	if IsHashed(names) {
 		return true
@@ -272,7 +274,7 @@ func Coincide(names string, q HostPort) bool {
 		p = strings.TrimPrefix(p, "!")
 		bracketed := strings.HasPrefix(p, "[")
 		if q.Port == "22" {
-			if bracketed {
+			if bracketed && strings.HasSuffix(p, "]:22") {
 				return false
 			}
 		} else if !bracketed && strings.ContainsAny(p, "*?") {
